@@ -300,18 +300,35 @@ class VirtualClock:
 
   `sleep(dt)` advances the virtual time by max(dt, spin_tick) and yields the GIL (so spin loops such
   as `while not fut.done(): time.sleep(0)` make progress and `wait_until_alive` deadlines expire).
+
+  `strict_other_threads=True`: threads other than the one that created the clock read
+  `now + k * 1e-6` (k = number of their reads so far), i.e. a strictly increasing clock.  Background
+  threads of the repo (CourierServer.run_until_shutdown) divide by elapsed time and die with
+  ZeroDivisionError on a clock that stands still; the owner thread — the one whose reads are
+  compared with a model — always sees the exact virtual time.
   """
 
-  def __init__(self, start: float = 1_000_000.0, spin_tick: float = 0.0):
+  def __init__(self, start: float = 1_000_000.0, spin_tick: float = 0.0,
+               strict_other_threads: bool = False):
     self.now = float(start)
     self.spin_tick = spin_tick
     self._lock = threading.Lock()
+    self._owner = threading.get_ident()
+    self._strict = strict_other_threads
+    self._reads = 0
 
   def time(self) -> float:
+    if self._strict and threading.get_ident() != self._owner:
+      with self._lock:
+        self._reads += 1
+        return self.now + self._reads * 1e-6
     return self.now
 
-  monotonic = time
-  perf_counter = time
+  def monotonic(self) -> float:
+    return self.time()
+
+  def perf_counter(self) -> float:
+    return self.time()
 
   def advance(self, dt: float):
     with self._lock:
